@@ -1,6 +1,7 @@
 package impl
 
 import (
+	"bytes"
 	"fmt"
 	"strings"
 
@@ -64,11 +65,16 @@ func runF(t []string) string {
 		if !ok {
 			return "bad-op"
 		}
+		given := append([]byte{}, data...)
 		read, err := f.Unpack(data)
-		if err != nil {
-			return strings.TrimSpace("err " + pathOf(err))
+		mod := ""
+		if !bytes.Equal(given, data) {
+			mod = " INPUT-MODIFIED" // the bytes belong to the caller; the model has no such outcome
 		}
-		return fmt.Sprintf("ok %s %d", ValueTree(f).String(), read)
+		if err != nil {
+			return strings.TrimSpace("err "+pathOf(err)) + mod
+		}
+		return fmt.Sprintf("ok %s %d", ValueTree(f).String(), read) + mod
 	}
 	return "bad-op"
 }
@@ -102,10 +108,16 @@ func runM(t []string) string {
 		if !ok {
 			return "bad-op"
 		}
-		if err := m.Unpack(data); err != nil {
-			return strings.TrimSpace("err " + pathOf(err))
+		given := append([]byte{}, data...)
+		err := m.Unpack(data)
+		mod := ""
+		if !bytes.Equal(given, data) {
+			mod = " INPUT-MODIFIED"
 		}
-		return "ok " + MsgTree(m).String()
+		if err != nil {
+			return strings.TrimSpace("err "+pathOf(err)) + mod
+		}
+		return "ok " + MsgTree(m).String() + mod
 	}
 	return "bad-op"
 }
